@@ -75,6 +75,22 @@ pub fn jobs(tier: Tier) -> Vec<Job> {
     let mut v = Vec::new();
     let spec = SpecId::CANCUN;
     let ds = drivers(spec);
+    // the fee credit folded in at commit when the fee recipient is deleted in the middle of the
+    // block (seeded change C02d/C07b: a committer-side copy of the recipient's account)
+    {
+        use super::c07::{beneficiary_of, templates as fee_templates, world as fee_world, Fee, Role};
+        let role = Role::SelfDestructing;
+        let ts = fee_templates(role, Fee::Legacy10);
+        let pick = |l: &str| ts.iter().position(|t| t.label == l).unwrap();
+        for labels in [vec!["pay(e2>e3)", "coinbase.destroy(e0)", "pay-incr(e3)", "pay(e2>e3)"], vec!["coinbase.destroy(e0)", "pay(e2>e3)", "read-coinbase(e1)"]] {
+            let seq: Vec<usize> = labels.iter().map(|l| pick(l)).collect();
+            for fork in [SpecId::BERLIN, SpecId::CANCUN] {
+                let mut case = super::sweep::build_case("c02:coinbase-destroyed", fork, &fee_world(role), &ts, &seq).unwrap();
+                case.env.beneficiary = beneficiary_of(role);
+                v.push(commit_job("c02-commit", &case, &RunCfg::parallel(2), COARSE, if tier == Tier::Quick { 1 } else { 2 }, false));
+            }
+        }
+    }
     // speculation reading the shared cache while ordered commit applies, publishes and releases
     for c in [blocks::nonce_chain(spec, 3), blocks::incr_same_slot(spec, 3), blocks::coinbase_reader_after_payers(spec)] {
         let mut run = RunCfg::parallel(2);
